@@ -10,7 +10,7 @@ import tempfile
 
 from . import sut
 from .kernel import mk_bytes, EventLog, bsum
-from .simfs import SimFile, SimCrash
+from .simfs import SimFile, SimPipe, SimCrash
 from . import msgcodec
 
 
@@ -153,18 +153,23 @@ def write_phase(scn, crash_at=None, log=None, items=None) -> WriteResult:
                                 o = m["mciipm"].IpmWriter(g, encoding=scn.get("encoding"), iso_config=cfg, blocked=blocked)
                                 o.write({"MTI": "1240", "DE2": "%016d" % j})
                             o.close()
-                    elif op in ("close", "exit", "exit!"):
+                    elif op in ("close", "exit", "exit!", "exit!!"):
                         try:
                             if op == "close":
                                 w.close()
                             elif op == "exit":
                                 exited = True
                                 w.__exit__(None, None, None)
-                            else:
+                            elif op == "exit!":
                                 # the with-body raised: the context manager is left with an exception in flight
                                 exited = True
                                 err = ValueError("application error inside the with block")
                                 w.__exit__(ValueError, err, None)
+                            else:
+                                # ... an exception that is not an Exception subclass (generator closed,
+                                # Ctrl-C, task cancelled)
+                                exited = True
+                                w.__exit__(GeneratorExit, GeneratorExit(), None)
                         except SimCrash:
                             raise
                         except Exception as ex:  # finalisation must not raise (C11)
@@ -233,7 +238,10 @@ def read_phase(scn, image, log=None, storage="sim", limit=None) -> ReadResult:
                 res.err_text = str(ex)[:200]
                 res.items = None
             return res
-        f = SimFile(image, log=log, name="disk") if storage == "sim" else io.BytesIO(image)
+        if storage == "pipe":
+            f = SimPipe(image, log=log, name="pipe")
+        else:
+            f = SimFile(image, log=log, name="disk") if storage == "sim" else io.BytesIO(image)
         if scn["level"] == "vbs":
             r = m["mciipm"].VbsReader(f, blocked=blocked)
         else:
@@ -263,6 +271,6 @@ def read_phase(scn, image, log=None, storage="sim", limit=None) -> ReadResult:
             if len(res.items) > cap:
                 res.end = "foreign:Unbounded"
                 break
-        if storage == "sim":
+        if storage in ("sim", "pipe"):
             res.io_ops = f.n_ops
     return res
